@@ -495,6 +495,8 @@ func (db *Backend) ListBucketVersions(
 	var truncated = false
 	var first = true
 	var cnt int64 = 0
+	var lastKey string
+	var lastVersionID gofakes3.VersionID
 
 	// FIXME: The S3 docs have this to say on the topic of result ordering:
 	//   "The following request returns objects in the order they were stored,
@@ -521,7 +523,9 @@ func (db *Backend) ListBucketVersions(
 
 		versions := iter.Value().(*bucketObject).Iterator()
 		if first {
-			if page.VersionIDMarker != "" {
+			// The version marker names the last version of the marker key
+			// that the previous page returned; resume after it:
+			if page.VersionIDMarker != "" && object.name == page.KeyMarker {
 				if !versions.Seek(page.VersionIDMarker) {
 					// FIXME: log
 					return result, gofakes3.ErrInternal
@@ -558,6 +562,8 @@ func (db *Backend) ListBucketVersions(
 				result.Versions = append(result.Versions, resultVer)
 			}
 
+			lastKey, lastVersionID = version.name, version.versionID
+
 			cnt++
 			if page.MaxKeys > 0 && cnt >= page.MaxKeys {
 				truncated = versions.Next()
@@ -568,6 +574,12 @@ func (db *Backend) ListBucketVersions(
 
 done:
 	result.IsTruncated = truncated || iter.Next()
+	if result.IsTruncated {
+		// The markers name the last entry of this page; passing them back
+		// continues the listing right after it.
+		result.NextKeyMarker = lastKey
+		result.NextVersionIDMarker = lastVersionID
+	}
 
 	return result, nil
 }
